@@ -33,7 +33,8 @@ struct Inner {
     status: Vec<Status>,
     chooser: Chooser,
     trace: Vec<u8>,
-    owner: BTreeMap<usize, usize>,
+    /// lock -> (writer, readers)
+    owner: BTreeMap<usize, (Option<usize>, Vec<usize>)>,
     pub steps: u64,
     pub context_switches: u64,
     pub gave_up: bool,
@@ -124,7 +125,7 @@ impl Sched {
         self.switch(usize::MAX);
     }
 
-    fn acquire(&self, me: usize, lock: usize) {
+    fn acquire(&self, me: usize, lock: usize, exclusive: bool) {
         loop {
             // decision point before every acquisition attempt
             self.switch(me);
@@ -132,8 +133,14 @@ impl Sched {
             if g.gave_up {
                 return;
             }
-            if !g.owner.contains_key(&lock) {
-                g.owner.insert(lock, me);
+            let st = g.owner.entry(lock).or_insert((None, Vec::new()));
+            let free = if exclusive { st.0.is_none() && st.1.is_empty() } else { st.0.is_none() };
+            if free {
+                if exclusive {
+                    st.0 = Some(me);
+                } else {
+                    st.1.push(me);
+                }
                 return;
             }
             g.status[me] = Status::Blocked(lock);
@@ -141,10 +148,16 @@ impl Sched {
         }
     }
 
-    fn release(&self, me: usize, lock: usize) {
+    fn release(&self, me: usize, lock: usize, exclusive: bool) {
         {
             let mut g = self.m.lock().unwrap();
-            g.owner.remove(&lock);
+            if let Some(st) = g.owner.get_mut(&lock) {
+                if exclusive {
+                    st.0 = None;
+                } else if let Some(p) = st.1.iter().position(|t| *t == me) {
+                    st.1.remove(p);
+                }
+            }
             for s in g.status.iter_mut() {
                 if *s == Status::Blocked(lock) {
                     *s = Status::Runnable;
@@ -220,7 +233,7 @@ pub mod shim {
             let sched = SCHED.with(|s| s.borrow().clone());
             match sched {
                 Some(s) if me != usize::MAX => {
-                    s.acquire(me, id);
+                    s.acquire(me, id, true);
                     // only the baton holder runs and the scheduler granted ownership: no contention. If the
                     // simulation was given up (deadlock: e.g. this very thread holds the lock in another
                     // task), the lock may still be taken: report it like a poisoned lock instead of blocking
@@ -232,6 +245,22 @@ pub mod shim {
                 }
                 _ => Ok(Guard { g: Some(self.inner.lock().unwrap_or_else(|p| p.into_inner())), lock: id, scheduled: false }),
             }
+        }
+    }
+
+    /// Uniform read access for the harness, whatever lock type the server's state alias names.
+    pub trait Peek<T> {
+        fn make(v: T) -> Self;
+        fn peek<R>(&self, f: impl FnOnce(&T) -> R) -> R;
+    }
+
+    impl<T> Peek<T> for Mutex<T> {
+        fn make(v: T) -> Self {
+            Mutex::new(v)
+        }
+        fn peek<R>(&self, f: impl FnOnce(&T) -> R) -> R {
+            let g = self.inner.lock().unwrap_or_else(|p| p.into_inner());
+            f(&g)
         }
     }
 
@@ -254,7 +283,119 @@ pub mod shim {
             if self.scheduled {
                 let me = ME.with(|m| m.get());
                 if let Some(s) = SCHED.with(|s| s.borrow().clone()) {
-                    s.release(me, self.lock);
+                    s.release(me, self.lock, true);
+                }
+            }
+        }
+    }
+
+    /// Drop-in for the part of `std::sync::RwLock` handlers would use (`read().unwrap()`, `write().unwrap()`).
+    /// Readers share, a writer excludes: the scheduler keeps the books, the inner lock only stores the value.
+    pub struct RwLock<T> {
+        inner: std::sync::RwLock<T>,
+    }
+
+    pub struct ReadGuard<'a, T> {
+        g: Option<std::sync::RwLockReadGuard<'a, T>>,
+        lock: usize,
+        scheduled: bool,
+    }
+
+    pub struct WriteGuard<'a, T> {
+        g: Option<std::sync::RwLockWriteGuard<'a, T>>,
+        lock: usize,
+        scheduled: bool,
+    }
+
+    impl<T> RwLock<T> {
+        pub fn new(v: T) -> Self {
+            RwLock { inner: std::sync::RwLock::new(v) }
+        }
+
+        pub fn read(&self) -> Result<ReadGuard<'_, T>, String> {
+            let id = self as *const _ as usize;
+            let me = ME.with(|m| m.get());
+            let sched = SCHED.with(|s| s.borrow().clone());
+            match sched {
+                Some(s) if me != usize::MAX => {
+                    s.acquire(me, id, false);
+                    match self.inner.try_read() {
+                        Ok(g) => Ok(ReadGuard { g: Some(g), lock: id, scheduled: !s.given_up() }),
+                        Err(std::sync::TryLockError::Poisoned(p)) => Ok(ReadGuard { g: Some(p.into_inner()), lock: id, scheduled: !s.given_up() }),
+                        Err(std::sync::TryLockError::WouldBlock) => Err("simulated deadlock: the lock is never released".to_string()),
+                    }
+                }
+                _ => Ok(ReadGuard { g: Some(self.inner.read().unwrap_or_else(|p| p.into_inner())), lock: id, scheduled: false }),
+            }
+        }
+
+        pub fn write(&self) -> Result<WriteGuard<'_, T>, String> {
+            let id = self as *const _ as usize;
+            let me = ME.with(|m| m.get());
+            let sched = SCHED.with(|s| s.borrow().clone());
+            match sched {
+                Some(s) if me != usize::MAX => {
+                    s.acquire(me, id, true);
+                    match self.inner.try_write() {
+                        Ok(g) => Ok(WriteGuard { g: Some(g), lock: id, scheduled: !s.given_up() }),
+                        Err(std::sync::TryLockError::Poisoned(p)) => Ok(WriteGuard { g: Some(p.into_inner()), lock: id, scheduled: !s.given_up() }),
+                        Err(std::sync::TryLockError::WouldBlock) => Err("simulated deadlock: the lock is never released".to_string()),
+                    }
+                }
+                _ => Ok(WriteGuard { g: Some(self.inner.write().unwrap_or_else(|p| p.into_inner())), lock: id, scheduled: false }),
+            }
+        }
+    }
+
+    impl<T> Peek<T> for RwLock<T> {
+        fn make(v: T) -> Self {
+            RwLock::new(v)
+        }
+        fn peek<R>(&self, f: impl FnOnce(&T) -> R) -> R {
+            let g = self.inner.read().unwrap_or_else(|p| p.into_inner());
+            f(&g)
+        }
+    }
+
+    impl<T> Deref for ReadGuard<'_, T> {
+        type Target = T;
+        fn deref(&self) -> &T {
+            self.g.as_ref().unwrap()
+        }
+    }
+
+    impl<T> Deref for WriteGuard<'_, T> {
+        type Target = T;
+        fn deref(&self) -> &T {
+            self.g.as_ref().unwrap()
+        }
+    }
+
+    impl<T> DerefMut for WriteGuard<'_, T> {
+        fn deref_mut(&mut self) -> &mut T {
+            self.g.as_mut().unwrap()
+        }
+    }
+
+    impl<T> Drop for ReadGuard<'_, T> {
+        fn drop(&mut self) {
+            self.g.take();
+            if self.scheduled {
+                let me = ME.with(|m| m.get());
+                if let Some(s) = SCHED.with(|s| s.borrow().clone()) {
+                    s.release(me, self.lock, false);
+                }
+            }
+        }
+    }
+
+    impl<T> Drop for WriteGuard<'_, T> {
+        fn drop(&mut self) {
+            self.g.take();
+            if self.scheduled {
+                let me = ME.with(|m| m.get());
+                if let Some(s) = SCHED.with(|s| s.borrow().clone()) {
+                    s.release(me, self.lock, true);
                 }
             }
         }
